@@ -926,15 +926,20 @@ func ufParamsBuf(p httphead.Parameters) []byte { return nil }
 //@   ensures [nn] result >= 0 && result <= 1<<40
 //@   assigns nothing
 
+// ufParamsContent: the list of (name, value) pairs a parameter set stands for.
+func ufParamsContent(p httphead.Parameters) int { return 0 }
+
 //@ func httphead.Parameters.Copy
 //@   ensures [into] sameBase(ufParamsBuf(result0), dst)
+//@   ensures [same] ufParamsContent(result0) == ufParamsContent(*p)
 //@   assigns bytes(dst)
 
 // The matcher inside matchSelectedExtensions: the option it appends carries the client's own name
 // and a copy of the parameters in fresh memory, never the slices of the header being scanned.
 //@ func matchSelectedExtensions$1
-//@   props C17 C15
+//@   props C17 C15 C10
 //@   ensures [own]  ok ==> len(received) == old(len(received))+1 && fresh(ufParamsBuf(received[len(received)-1].Parameters))
+//@   ensures [params] ok ==> ufParamsContent(received[len(received)-1].Parameters) == ufParamsContent(old(option).Parameters)
 //@   ensures [keep] !ok ==> len(received) == old(len(received))
 //@   loop 1 invariant [keep] len(received) == old(len(received))
 
@@ -997,8 +1002,19 @@ func ufWriterOf(w io.Writer) *bufio.Writer { return nil }
 //@   trusted
 //@   assigns nothing
 
+// ufOptsOwned(opts, n): the options opts[n:] carry their names and parameters in memory of their
+// own (C17). Assumed of the dependency: OptionSelector.Select appends copies when SelectCopy is
+// set (httphead documents exactly this) and views of its input otherwise.
+func ufOptsOwned(opts []httphead.Option, n int) bool { return true }
+
+//@ func httphead.OptionSelector.Select
+//@   ensures [copy] s.Flags&httphead.SelectCopy != 0 && s.Alloc == nil ==> ufOptsOwned(result0, len(options))
+//@   assigns nothing
+
+// The server's extension selection keeps copies, not views of the pooled read buffer.
 //@ func btsSelectExtensions
-//@   trusted
+//@   props C09 C17
+//@   ensures [own] ufOptsOwned(result0, len(selected))
 //@   assigns nothing
 
 //@ func btsHasToken
